@@ -57,16 +57,29 @@ def Val.toStrPairs : List (Bytes × Val) → List Bytes
   | (k, v) :: r => (k ++ [58, 32] ++ Val.toStr v) :: Val.toStrPairs r
 end
 
-/-- `strconv.Quote` restricted to: printable ASCII, the named escapes, other control bytes as
-    \xNN; bytes ≥ 0x80 are copied (valid UTF-8 of printable characters is assumed) -/
-def goQuote (s : Bytes) : Bytes :=
-  [34] ++ s.flatMap (fun c =>
-    if c == 34 then [92, 34] else if c == 92 then [92, 92]
-    else if c == 7 then b "\\a" else if c == 8 then b "\\b" else if c == 12 then b "\\f"
-    else if c == 10 then b "\\n" else if c == 13 then b "\\r" else if c == 9 then b "\\t"
-    else if c == 11 then b "\\v"
-    else if c < 32 || c == 127 then b "\\x" ++ b (toHex [c])
-    else [c]) ++ [34]
+/-- `strconv.Quote`: printable ASCII and valid multi-byte runes as they are, the named escapes,
+    other control bytes and invalid UTF-8 bytes as \xNN, C1 control runes as \u00NN
+    (`unicode.IsPrint` is not modelled beyond that) -/
+def goQuote (s : Bytes) : Bytes := [34] ++ go s.length s ++ [34]
+where
+  go : Nat → Bytes → Bytes
+  | 0, _ => []
+  | fuel + 1, s =>
+    match s with
+    | [] => []
+    | c :: t =>
+      if c < 128 then
+        (if c == 34 then [92, 34] else if c == 92 then [92, 92]
+         else if c == 7 then b "\\a" else if c == 8 then b "\\b" else if c == 12 then b "\\f"
+         else if c == 10 then b "\\n" else if c == 13 then b "\\r" else if c == 9 then b "\\t"
+         else if c == 11 then b "\\v"
+         else if c < 32 || c == 127 then b "\\x" ++ b (toHex [c])
+         else [c]) ++ go fuel t
+      else
+        let (r, w) := decodeRune s
+        if r == runeError && w == 1 then b "\\x" ++ b (toHex [c]) ++ go fuel t
+        else if 0x80 ≤ r && r ≤ 0x9F then b "\\u00" ++ b (toHex [r]) ++ go fuel (s.drop w)
+        else s.take w ++ go fuel (s.drop w)
 
 def spaces (n : Nat) : Bytes := List.replicate (2 * n) 32
 
